@@ -2706,7 +2706,9 @@ class ProgramGen(object):
                 vt = rng.choice([t for t in ('str', 'str', 'int', 'float') if t not in self.exclude])
                 self.use('truth.expr.' + vt)
                 x = self.gen(vt, d - 1)               # truth test of a computed value (method call, coalesce, arithmetic ...)
-                return X(P(x), True)
+                if any((v + '.') in x.t for v, _e in self.vars): return X(P(x), True)
+                self.prods.pop()                      # a constant is not a truth test worth running (and is a C03 shape)
+                return self.bool_leaf()
             typ = 'bool'
         if d <= 0 or rng.random() < 0.22: return self.leaf(typ)
         # special (non-template) productions
@@ -2735,7 +2737,7 @@ class ProgramGen(object):
 
     def newvar(self, ename):
         base = ename[0].lower()
-        used = {v for v, _ in self.vars}
+        used = {v for v, _ in self.vars} | set(getattr(self, 'reserved', ()))
         for cand in [base, base + '2', base + '3', base + '4', base + '5']:
             if cand not in used: return cand
         self.nvar += 1
